@@ -51,6 +51,7 @@ def run(ctx):
         eng.mutation_schedules(topo, spec, muts, invariant='C07', bounds=bounds, timeout=150 if ctx.quick else 900)
     for topo, spec, num, depth in sc['conf']:
         eng.conformance(topo, spec, num, depth)
+    eng.cover(topos.balance2(maxseq=0), 'SpecZL', max_paths=150 if ctx.quick else None)
     for topo, n, steps, pt in sc['rand']:
         eng.random_runs(topo, n, steps, p_timeout=pt, tag='rand', validate=3 if ctx.quick else 25)
     return rep.finish()
